@@ -58,6 +58,14 @@ Theorem C17_waiters_woken : forall ttl es w g,
 Proof. exact waiters_woken. Qed.
 Print Assumptions C17_waiters_woken.
 
+(** ... and a waiting caller can always leave through its context: requests return or honour cancellation *)
+Theorem C17_cancel_honoured : forall s w g,
+  swait s w = WHolding g ->
+  swait (step s (EWCancel w)) w = WGone /\ spool (step s (EWCancel w)) = spool s /\
+  forall w', w' <> w -> swait (step s (EWCancel w)) w' = swait s w'.
+Proof. exact cancel_honoured. Qed.
+Print Assumptions C17_cancel_honoured.
+
 (** non-vacuity *)
 Theorem C17_pool_nonvacuous :
   let s := run step (init 10) ex_history in
